@@ -191,7 +191,7 @@ def trace_rerun(job, check, tier, seed, nshards):
         replay = {"kind": "unarmor", "cfg": job["cfg"], "hex": hexdata, "fill": int(extra or 0)}
     else:
         replay = {"kind": "message", "cfg": job["cfg"], "hex": hexdata}
-    why = "stall (no progress for 8 s)" if again["rc"] == 3 else "abnormal exit status %s" % again["rc"]
+    why = "stall (no progress for 30 s + 1 s per MiB of input)" if again["rc"] == 3 else "abnormal exit status %s" % again["rc"]
     return {"prop": check, "sig": "process-death:%s" % ("stall" if again["rc"] == 3 else again["rc"]),
             "detail": "%s/%s shard %d: %s reproduced in trace mode; last input is the witness. stderr: %s" % (
                 job["profile"], job["cfg"], job["shard"], why, again["stderr"][-300:]),
